@@ -96,8 +96,33 @@ def reset(repo=None):
         REPO = repo
 
 
+LEMMAS = {}    # 'lemma:<name>' -> (module name whose globals the text sees, FunctionDef parsed from the sidecar's text)
+
+
+def register_lemma(target, module, text):
+    node = ast.parse(text).body[0]
+    LEMMAS[target] = (module, node, text)
+
+
+class _LemmaModule:
+    """The module a lemma is stated in: the repo module's globals, the lemma's own text for hashing."""
+    def __init__(self, mi, text):
+        self.__dict__.update(mi.__dict__)
+        self._text = text
+        self.path = "sidecar lemma over " + mi.path
+
+    def func_hash(self, node):
+        return hashlib.sha256(self._text.encode()).hexdigest()[:16]
+
+    def segment(self, node):
+        return self._text
+
+
 def find_function(target):
-    """target = 'monkeytype.stubs:update_signature_args' or '...:Class.method'."""
+    """target = 'monkeytype.stubs:update_signature_args' or '...:Class.method' or 'lemma:<name>'."""
+    if target in LEMMAS:
+        module, node, text = LEMMAS[target]
+        return _LemmaModule(load(module), text), node
     mod, qual = target.split(":")
     mi = load(mod)
     node = mi.functions.get(qual)
